@@ -82,10 +82,11 @@ def native_build(name, src):
 def family_of(unit_id):
     if re.match(r'btr\.\w+\.copy_assign$', unit_id):
         return {'name': 'c19', 'src': 'replay_c19.cpp', 'argv': lambda u, i: []}
-    for pre, fam in FAMILIES.items():
-        if unit_id.startswith(pre):
-            return fam
-    return None
+    best = None
+    for pre, fam in FAMILIES.items():       # the most specific (longest) prefix wins
+        if unit_id.startswith(pre) and (best is None or len(pre) > len(best[0])):
+            best = (pre, fam)
+    return best[1] if best else None
 
 
 def run_native(verif, fam, unit_id, inputs):
@@ -121,7 +122,7 @@ def make_replay(verif, pid, r, oid):
     inputs = harness_inputs(trace)
     fam = family_of(u.id)
     native = None
-    if fam and (inputs or oid.endswith('.reachability.normal_return') or fam.get('src') in ('replay_bt.cpp', 'replay_fp.cpp', 'replay_ili.cpp', 'replay_nest.cpp', 'replay_c19.cpp', 'replay_dname.cpp', 'replay_ip.cpp', 'replay_c16.cpp', 'replay_c16f.cpp', 'replay_gz.cpp', 'replay_c13x.cpp')):
+    if fam and (inputs or oid.endswith('.reachability.normal_return') or fam.get('src') in ('replay_bt.cpp', 'replay_fp.cpp', 'replay_ili.cpp', 'replay_nest.cpp', 'replay_c19.cpp', 'replay_dname.cpp', 'replay_ip.cpp', 'replay_c16.cpp', 'replay_c16f.cpp', 'replay_gz.cpp', 'replay_c13x.cpp', 'replay_c16r.cpp')):
         native = run_native(verif, fam, u.id, inputs)
     confirmed = bool(native and native.get('ran') and native.get('misbehaves'))
     fn = re.sub(r'[^A-Za-z0-9_.@-]', '_', '%s-%s-%s.json' % (pid, uid, oid))
@@ -367,6 +368,8 @@ FAMILIES['out.gzip.write_gzip'] = {'name': 'gz', 'src': 'replay_gz.cpp', 'argv':
 
 FAMILIES['out.file.rotate_output.c13'] = {'name': 'c13x', 'src': 'replay_c13x.cpp', 'argv': lambda u, i: ['name2fd']}
 FAMILIES['out.fd.rotate_output.c13'] = {'name': 'c13x', 'src': 'replay_c13x.cpp', 'argv': lambda u, i: ['fd2name']}
+FAMILIES['enc.rotate_output.fd.recover'] = {'name': 'c16r', 'src': 'replay_c16r.cpp', 'argv': lambda u, i: []}
+FAMILIES['enc.rotate_output.string.recover'] = {'name': 'c16r', 'src': 'replay_c16r.cpp', 'argv': lambda u, i: []}
 FAMILIES['out.file.rotate_output.c16'] = {'name': 'c16f', 'src': 'replay_c16f.cpp', 'argv': lambda u, i: []}
 FAMILIES['out.gzip.rotate_output.c16'] = {'name': 'c16', 'src': 'replay_c16.cpp', 'argv': lambda u, i: []}
 
